@@ -61,6 +61,7 @@ class Gen:
         self.tagbase = tagbase
         self.rng = random.Random(seed * 1000003 + len(kinds) * 17 + nres)
         self.nq = nq
+        self.npar = int(__import__("os").environ.get("BVH_GEN_NPAR", "40"))
         n = self.n
         if shapes_spec == "all":
             shapes = list(range(1 << n))
@@ -134,6 +135,11 @@ class Gen:
                 return self.view_ty(vs[0])
             return self.views_ty(vs)
         raise ValueError(f)
+
+    def filter_ty_static(self, f):
+        """Filter type for `type Filter` of a System impl: reference views need a named lifetime."""
+        t = self.filter_ty(f)
+        return t.replace("&mut ", "&'static mut ").replace("&C", "&'static C")
 
     def filter_d(self, f):
         t = f[0]
@@ -247,7 +253,11 @@ class Gen:
         w("#[allow(unused_imports)]")
         w("use bvh::payload::{Heap, Kind, Med, Obs, Payload, Small, Wide, Zst};")
         w("#[allow(unused_imports)]")
-        w("use bvh::rig::{col, FilterD, IterMode, QCtx, QDesc, Rig, Row, SubD, ViewD, VK, W};")
+        w("use bvh::rig::{col, Consumer, FilterD, IterMode, ParCtx, ParRig, QCtx, QDesc, Rig, Row, SubD, ViewD, VK, W};")
+        w("#[allow(unused_imports)]")
+        w("use brood::{query::Result as QResult, registry::ContainsViews as RegContainsViews, system::{ParSystem, System}};")
+        w("#[allow(unused_imports)]")
+        w("use rayon::iter::ParallelIterator;")
         w("use brood::entity::Identifier;")
         for k, kind in enumerate(self.kinds):
             w(f"pub type C{k} = {kind}<{self.tagbase + k}>;")
@@ -480,7 +490,143 @@ class Gen:
 
         for qi, q in enumerate(queries):
             self.emit_query(o, qi, q)
+        npar = min(len(queries), self.npar)
+        w(f"impl ParRig for {self.name} {{")
+        w(f"    const NPAR: usize = {npar};")
+        w("    fn run_par_query(w: &mut Wd, qi: usize, cx: &ParCtx, qcx: &mut QCtx, consumer: Consumer) -> usize {")
+        w("        match qi {")
+        for qi in range(npar):
+            w(f"            {qi} => par_query_{qi}(w, cx, qcx, consumer),")
+        w('            _ => panic!("rig: bad par query index"),')
+        w("        }")
+        w("    }")
+        w("    fn run_par_system(w: &mut Wd, qi: usize, cx: &ParCtx, qcx: &mut QCtx) {")
+        w("        match qi {")
+        for qi in range(npar):
+            w(f"            {qi} => w.run_par_system(&mut ParSys{qi} {{ cx, qcx }}),")
+        w('            _ => panic!("rig: bad par query index"),')
+        w("        }")
+        w("    }")
+        w("    fn run_system(w: &mut Wd, qi: usize, qcx: &mut QCtx) {")
+        w("        match qi {")
+        for qi in range(npar):
+            w(f"            {qi} => w.run_system(&mut Sys{qi} {{ cx: qcx }}),")
+        w('            _ => panic!("rig: bad par query index"),')
+        w("        }")
+        w("    }")
+        w("}")
+        for qi in range(npar):
+            self.emit_par(o, qi, queries[qi])
         return "\n".join(o) + "\n"
+
+    def lt_view_ty(self, v, comp=None):
+        comp = comp or self.C
+        if v == "Id":
+            return "entity::Identifier"
+        k, vk = v
+        c = comp(k)
+        return {"Ref": f"&'a {c}", "Mut": f"&'a mut {c}", "OptRef": f"Option<&'a {c}>", "OptMut": f"Option<&'a mut {c}>"}[vk]
+
+    def lt_views_ty(self, vs):
+        return "Views!(" + ", ".join(self.lt_view_ty(v) for v in vs) + ")"
+
+    def entry_block(self, w, entry, subs, res_var, ind):
+        """Entry pass over cx.entry_targets using `<res_var>.entries`; observations go to `cx`."""
+        if not entry:
+            return
+        w(f"{ind}for ti in 0..cx.entry_targets.len() {{")
+        w(f"{ind}    let id = cx.entry_targets[ti];")
+        w(f"{ind}    match {res_var}.entries.entry(id) {{")
+        w(f"{ind}        None => cx.entry_missing(ti),")
+        w(f"{ind}        Some(mut e) => {{")
+        for si, (sv, sf) in enumerate(subs):
+            spat = ", ".join(f"s{i}" for i in range(len(sv)))
+            w(f"{ind}            cx.sub_begin(ti, {si});")
+            w(f"{ind}            match e.query(Query::<{self.views_ty(sv)}, {self.filter_ty(sf)}>::new()) {{")
+            w(f"{ind}                None => cx.sub_none(),")
+            w(f"{ind}                Some(result!({spat})) => {{")
+            for line in self.see_lines(sv, "s", ind + "                    "):
+                w(line)
+            w(f"{ind}                    cx.sub_some();")
+            w(f"{ind}                }}")
+            w(f"{ind}            }}")
+        w(f"{ind}        }}")
+        w(f"{ind}    }}")
+        w(f"{ind}}}")
+
+    def emit_par(self, o, qi, q):
+        w = o.append
+        views, flt, res, entry, subs = q["views"], q["filter"], q["res"], q["entry"], q["subs"]
+        vty, fty = self.views_ty(views), self.filter_ty(flt)
+        rty = "Views!(" + ", ".join(("&mut " if m else "&") + f"S{x}" for x, m in res) + ")"
+        ety = self.views_ty(entry)
+        pat = ", ".join(f"v{i}" for i in range(len(views)))
+        see = [l.replace("cx.", "it.") for l in self.see_lines(views, "v", "")]
+        body = "let mut it = pcx.item(); " + " ".join(see)
+        w("#[allow(unused_variables, unused_mut, clippy::all)]")
+        w(f"fn par_query_{qi}(w: &mut Wd, pcx: &ParCtx, cx: &mut QCtx, consumer: Consumer) -> usize {{")
+        w(f"    let mut result = w.par_query(Query::<{vty}, {fty}, {rty}, {ety}>::new());")
+        if res:
+            rpat = ", ".join(f"r{i}" for i in range(len(res)))
+            w(f"    let result!({rpat}) = result.resources;")
+            for i, (x, m) in enumerate(res):
+                w(f"    cx.see_res{'_mut' if m else ''}({x}, r{i});")
+        w("    let iter = result.iter;")
+        w("    let mut counted = 0usize;")
+        w("    match consumer {")
+        w(f"        Consumer::ForEach => iter.for_each(|result!({pat})| {{ {body} it.finish(); }}),")
+        w(f"        Consumer::MapCollect => {{ let v: Vec<bvh::rig::Item> = iter.map(|result!({pat})| {{ {body} it.done().0 }}).collect(); for x in v {{ pcx.push(x); }} }}")
+        w("        Consumer::Count => { counted = iter.count(); }")
+        w(f"        Consumer::AnyFalse => {{ let r = iter.any(|result!({pat})| {{ {body} it.finish(); false }}); assert!(!r); }}")
+        w(f"        Consumer::FindAny => {{ let _ = iter.find_map_any(|result!({pat})| {{ {body} if it.finish() {{ Some(()) }} else {{ None }} }}).is_some(); }}")
+        w("    }")
+        self.entry_block(w, entry, subs, "result", "    ")
+        w("    counted")
+        w("}")
+        # systems
+        lvty = self.lt_views_ty(views)
+        lrty = "Views!(" + ", ".join(("&'a mut " if m else "&'a ") + f"S{x}" for x, m in res) + ")"
+        lety = self.lt_views_ty(entry)
+        for par in (True, False):
+            name = f"ParSys{qi}" if par else f"Sys{qi}"
+            if par:
+                w(f"struct {name}<'c> {{ cx: &'c ParCtx, qcx: &'c mut QCtx }}")
+                w(f"impl<'c> ParSystem for {name}<'c> {{")
+            else:
+                w(f"struct {name}<'c> {{ cx: &'c mut QCtx }}")
+                w(f"impl<'c> System for {name}<'c> {{")
+            w(f"    type Views<'a> = {lvty};")
+            w(f"    type Filter = {self.filter_ty_static(flt)};")
+            w(f"    type ResourceViews<'a> = {lrty};")
+            w(f"    type EntryViews<'a> = {lety};")
+            w("    #[allow(unused_variables, unused_mut, clippy::all)]")
+            w("    fn run<'a, R, S, I, E>(&mut self, mut query_result: QResult<'a, R, S, I, Self::ResourceViews<'a>, Self::EntryViews<'a>, E>)")
+            w("    where")
+            w("        R: RegContainsViews<'a, Self::EntryViews<'a>, E>,")
+            w(f"        I: {'ParallelIterator' if par else 'Iterator'}<Item = Self::Views<'a>>,")
+            w("    {")
+            if par:
+                w("        let pcx = self.cx;")
+                w("        let cx = &mut *self.qcx;")
+            else:
+                w("        let cx = &mut *self.cx;")
+            if res:
+                rpat = ", ".join(f"r{i}" for i in range(len(res)))
+                w(f"        let result!({rpat}) = query_result.resources;")
+                for i, (x, m) in enumerate(res):
+                    w(f"        cx.see_res{'_mut' if m else ''}({x}, r{i});")
+            if par:
+                w(f"        query_result.iter.for_each(|result!({pat})| {{ {body} it.finish(); }});")
+            else:
+                w(f"        for result!({pat}) in query_result.iter {{")
+                w("            cx.item_begin();")
+                for line in self.see_lines(views, "v", "            "):
+                    w(line)
+                w("            cx.item_end();")
+                w("        }")
+            self.entry_block(w, entry, subs, "query_result", "        ")
+            w("    }")
+            w("}")
 
     def see_lines(self, views, prefix, indent):
         """Lines observing the bound variables prefix0.. for a views list."""
